@@ -190,6 +190,13 @@ def corpus(W: World) -> list:
         hs.append([['new', None, [[n, cb]]], ['new', None, [[n, ca]]]])
     hs.append([['new', None, [['hint_overrides', fa]]], ['new', None, [['hint_overrides', fb]]], ['again', None, 0]])
     hs.append([['new', None, [['hint_overrides', fb]]], ['new', None, [['hint_overrides', fa]]]])
+    # the tower with overrides that spell ONE of its entries as the tower does and conflict on the OTHER
+    for i in W.i_fd:
+        e = W.enc[i]
+        if e[0] == 'fd' and e[4] and {'tower'} < {e[1] if isinstance(e[1], str) else 'other', e[2] if isinstance(e[2], str) else 'other'} \
+                and 'other' in (e[1] if isinstance(e[1], str) else 'other', e[2] if isinstance(e[2], str) else 'other'):
+            hs.append([['new', None, [['is_pep484_tower', T], ['hint_overrides', i]]], ['new', None, [['is_pep484_tower', T]]]])
+            hs.append([['new', None, [['hint_overrides', i]]], ['new', None, [['hint_overrides', i], ['is_pep484_tower', T]]]])
     return hs
 
 
